@@ -148,6 +148,41 @@ func runC05(p *core.Prog, r *core.Report) {
 	if put == nil {
 		return
 	}
+	// what is reset before Put is what the Store holds *then*: the sub-objects are exported fields (Store.W, Store.P) that
+	// a relay or handler may replace, so a reset through a pointer read before the handlers ran wipes the old object and
+	// sends the replacement back to the pool as the handler left it
+	{
+		var stale []string
+		sx.Instrs(serve, func(in ssa.Instruction) {
+			st, ok := in.(*ssa.Store)
+			if !ok || !sx.ReachInstr(serve, relay, in, sx.Cut{}) {
+				return
+			}
+			a := st.Addr
+			for d := 0; d < 4; d++ {
+				fa, ok := a.(*ssa.FieldAddr)
+				if !ok {
+					return
+				}
+				ld, ok := fa.X.(*ssa.UnOp)
+				if !ok || ld.Op != token.MUL {
+					return
+				}
+				inner, ok := ld.X.(*ssa.FieldAddr)
+				if !ok {
+					return
+				}
+				if types.Identical(ptrTo(inner.X.Type()), store) {
+					if !sx.ReachInstr(serve, relay, ld, sx.Cut{}) {
+						stale = append(stale, "the reset at "+p.Pos(in.Pos())+" goes through Store."+sx.FieldOf(inner).Name()+" as read at "+p.Pos(ld.Pos())+", before the handlers ran")
+					}
+					return
+				}
+				a = inner
+			}
+		})
+		r.Check(len(stale) == 0, "C05-R1", "resets address the Store's sub-objects as they are after the handlers", p.Pos(relay.Pos()), "every reset reads Store.W / Store.P after the relay call", strings.Join(uniq(stale), "; ")+": a sub-object the handler put in place returns to the pool un-reset (its status, its values), the next request starts with them")
+	}
 	// the Store handed to the handlers is the pool's own: taken with Get (sync.Pool never hands one object to two
 	// callers) or freshly made — not read from some other shared slot (a "spare" kept beside the pool is read by two
 	// concurrent requests before either clears it)
